@@ -157,8 +157,12 @@ class Z3Alg:
         return r.v
 
     def pow(self, a, n):
+        """x**y with a symbolic exponent: uninterpreted; ground axioms: x>0 => x**y>0; x>=1 and y<=0 => x**y<=1."""
         f = self.ctx.ufun("pow", ["real", "real"], "real")
-        return f.term(self._num(a), self._num(val(n)))
+        a, n = self._num(a), self._num(val(n))
+        t = f.term(a, n)
+        self.ctx.assume(z3.And(z3.Implies(a > 0, t > 0), z3.Implies(z3.And(a >= 1, n <= 0), t <= 1)), silent=True)
+        return t
 
     def norm(self, a, ord=None):
         """norm of an abstract vector: uninterpreted, non-negative, absolutely homogeneous."""
@@ -865,7 +869,7 @@ def instrument(module_obj, modname, qualname, loop_specs, extra_globals=None):
     targets = {}
     for K in loop_specs:
         if K >= len(loops):
-            raise LookupError("%s:%s has %d loops; contract names loop %d" % (modname, qualname, len(loops), K))
+            raise loader.MissingCode("%s:%s has %d loops; contract names loop %d" % (modname, qualname, len(loops), K))
         targets[id(loops[K])] = K
     node = _Cutter(targets, {K: sp.get("also_havoc", ()) for K, sp in loop_specs.items()},
                    [K for K, sp in loop_specs.items() if sp.get("body_invariant")]).visit(node)
